@@ -313,6 +313,38 @@ func staleOnBackEdge(in ssa.Instruction, name string) string {
 	return ""
 }
 
+// notFreshPerIteration: the value is not an allocation made inside the innermost loop that contains the instruction.
+func notFreshPerIteration(in ssa.Instruction, v ssa.Value) string {
+	var allocBlock *ssa.BasicBlock
+	switch x := v.(type) {
+	case *ssa.MakeMap:
+		allocBlock = x.Block()
+	case *ssa.MakeSlice:
+		allocBlock = x.Block()
+	case *ssa.Alloc:
+		allocBlock = x.Block()
+	default:
+		return "is not allocated in this function at all"
+	}
+	b := in.Block()
+	// innermost loop header around the site: the nearest dominator that has a predecessor it dominates (a back edge)
+	for h := b; h != nil; h = h.Idom() {
+		isHeader := false
+		for _, p := range h.Preds {
+			if h.Dominates(p) {
+				isHeader = true
+			}
+		}
+		if isHeader {
+			if h.Dominates(allocBlock) && h != allocBlock {
+				return ""
+			}
+			return "is allocated once, before the loop, and so is shared by all iterations"
+		}
+	}
+	return ""
+}
+
 // localOf returns the local variable (Alloc) that an address is a field/element of, or nil.
 func localOf(v ssa.Value) *ssa.Alloc {
 	for depth := 0; depth < 8; depth++ {
@@ -403,6 +435,10 @@ func readAfter(st *ssa.Store, al *ssa.Alloc) bool {
 	return walk(b, start)
 }
 
+// coneThroughCallees: only the decision-coverage rule counts what a small helper looks at as looked at by the caller;
+// the digest/key coverage rules (hashed, keyed) must not, a field read inside a helper does not reach the sink.
+var coneThroughCallees = false
+
 // fieldsInCone collects "Type.field" names read in the backward data cone of v.
 func fieldsInCone(v ssa.Value, seen map[ssa.Value]bool, out map[string]bool, depth int) {
 	if v == nil || seen[v] || depth > 40 {
@@ -487,6 +523,32 @@ func fieldsInCone(v ssa.Value, seen map[ssa.Value]bool, out map[string]bool, dep
 		}
 		if !x.Call.IsInvoke() {
 			rec(x.Call.Value)
+		}
+		// a small helper of the same module that computes the answer (e.g. `p.isInlinedEnumNumber(e.Left)`): what it
+		// looks at (dynamic types tested, fields read) counts as looked at by the caller's decision; one level deep
+		if callee := x.Call.StaticCallee(); coneThroughCallees && callee != nil && depth < 30 && callee.Pkg != nil && strings.HasPrefix(callee.Pkg.Pkg.Path(), modPath) && len(callee.Blocks) <= 40 {
+			for _, b := range callee.Blocks {
+				for _, in := range b.Instrs {
+					switch y := in.(type) {
+					case *ssa.TypeAssert:
+						t := y.AssertedType
+						if pt, ok := t.(*types.Pointer); ok {
+							t = pt.Elem()
+						}
+						if n, ok := t.(*types.Named); ok {
+							out["type:"+n.Obj().Name()] = true
+						}
+					case *ssa.FieldAddr:
+						if pt, ok := y.X.Type().Underlying().(*types.Pointer); ok {
+							if n, ok := pt.Elem().(*types.Named); ok {
+								if st, ok := n.Underlying().(*types.Struct); ok {
+									out[n.Obj().Name()+"."+st.Field(y.Field).Name()] = true
+								}
+							}
+						}
+					}
+				}
+			}
 		}
 	case *ssa.Alloc:
 		// values stored into the local
@@ -865,6 +927,54 @@ func runUnguardedRules(p *Program, id string) ([]*Gen, []string) {
 						if why := staleOnBackEdge(in, tu); why != "" {
 							o.Pre = "sat"
 							o.Model = why
+						}
+					}
+					// a scratch structure handed to the call must be made anew for every item (arg-fresh-per-iteration=N): the
+					// N-th argument is a map/slice/struct made inside the innermost loop around the call, not before it
+					if af := kv["arg-fresh-per-iteration"]; af != "" {
+						var an int
+						fmt.Sscanf(af, "%d", &an)
+						if c, isCall := in.(*ssa.Call); isCall && an < len(c.Call.Args) {
+							if why := notFreshPerIteration(in, c.Call.Args[an]); why != "" {
+								o.Pre = "sat"
+								o.Model = "argument " + fmt.Sprint(an) + " (" + valuePath(c.Call.Args[an]) + ") " + why
+							}
+						}
+					}
+					// required shape of the key / value of a map update (mapkey=PAT OR PAT, mapvalue=PAT OR PAT)
+					if mu, isMU := in.(*ssa.MapUpdate); isMU {
+						for _, kvn := range [][2]string{{"mapkey", valuePath(mu.Key)}, {"mapvalue", valuePath(mu.Value)}} {
+							if pat := kv[kvn[0]]; pat != "" {
+								okAlt := false
+								for _, alt := range strings.Split(pat, " OR ") {
+									if pathMatches(kvn[1], strings.TrimSpace(alt)) {
+										okAlt = true
+									}
+								}
+								if !okAlt {
+									o.Pre = "sat"
+									o.Model = "the " + kvn[0][3:] + " of the map update is " + kvn[1] + ", expected " + pat
+								}
+							}
+						}
+					}
+					// required provenance of a returned value (retpath=N:PAT OR PAT)
+					if rp := kv["retpath"]; rp != "" {
+						parts := strings.SplitN(rp, ":", 2)
+						var rn int
+						fmt.Sscanf(parts[0], "%d", &rn)
+						if r, isRet := in.(*ssa.Return); isRet && len(parts) == 2 && rn < len(r.Results) {
+							got := valuePath(r.Results[rn])
+							okAlt := false
+							for _, alt := range strings.Split(parts[1], " OR ") {
+								if pathMatches(got, strings.TrimSpace(alt)) {
+									okAlt = true
+								}
+							}
+							if !okAlt {
+								o.Pre = "sat"
+								o.Model = fmt.Sprintf("result %d is %s, expected %s", rn, got, parts[1])
+							}
 						}
 					}
 					// a decision that belongs to the site (then-reads=T.f): the function reads field f of a T either before the
